@@ -257,3 +257,159 @@ func TestVerif_C12_blpop_empty(t *testing.T) {
 		},
 		func(c c12BlockCase) kit.Verdict { return c12BlockInterp(t, c) })
 }
+
+// ---------------------------------------------------------------- breaker, per command
+
+// c12PerCmdCase: one argument tuple per table entry (and one pipeline); every entry
+// gets its own fresh *Redis (fresh breaker) and a run of N consecutive calls.
+type c12PerCmdCase struct {
+	N     int       `json:"n"` // calls per run, 40..60
+	Steps []c12Step `json:"steps"`
+}
+
+func c12PerCmdGen(rt *rapid.T) c12PerCmdCase {
+	g := &c12G{rt: rt, bit: rapid.Bool()}
+	c := c12PerCmdCase{N: 40 + g.uni(21)}
+	for _, name := range c12Names {
+		s := c12Table[name].gen(g)
+		s.C = name
+		s.X = g.uni(2) == 1 // form of the redis.Nil run; the cancelled run needs the Ctx form
+		c.Steps = append(c.Steps, s)
+	}
+	p := c12Step{C: "pipeline", X: g.uni(2) == 1}
+	for n := 1 + g.uni(3); n > 0; n-- {
+		q := c12Table["Get"].gen(g)
+		q.C = "Get"
+		p.P = append(p.P, q)
+	}
+	c.Steps = append(c.Steps, p)
+	return c
+}
+
+// For EVERY wrapper command: (a) N consecutive calls of the Ctx form with an already
+// cancelled context on a fresh *Redis: each must answer what go-redis answers with that
+// context (context.Canceled), never ErrServiceUnavailable, and the instance must still
+// serve afterwards; (b) on an empty server, when the command answers redis.Nil (absent
+// key), N further consecutive misses likewise. After f failures and no success the
+// breaker drops with probability (f-5)/(f+1): a command whose Nil / Canceled counted as
+// a failure survives 40 calls with probability < 1e-20.
+func c12PerCmdInterp(t *testing.T, c c12PerCmdCase) (v kit.Verdict) {
+	tw := c12Setup(t)
+	cls := map[string]bool{}
+	defer func() {
+		for k := range cls {
+			v.Classes = append(v.Classes, k)
+		}
+		sort.Strings(v.Classes)
+	}()
+	for _, m := range []*miniredis.Miniredis{tw.mA, tw.mB} {
+		m.FlushAll()
+		m.SetTime(c12T0)
+	}
+	healthy := func(r *Redis, what string) string {
+		if err := r.Set("alive", "1"); err != nil {
+			return fmt.Sprintf("%s: a following Set on the same instance failed: %v", what, err)
+		}
+		if _, err := r.Del("alive"); err != nil {
+			return fmt.Sprintf("%s: a following Del on the same instance failed: %v", what, err)
+		}
+		return ""
+	}
+	call := func(e *c12Env, ctx context.Context, s c12Step) (any, error) {
+		if s.C == "pipeline" {
+			fn := func(p red.Pipeliner) error {
+				for _, q := range s.P {
+					c12Pipe[q.C](p, ctx, q)
+				}
+				return nil
+			}
+			if s.X {
+				return nil, e.r.PipelinedCtx(ctx, fn)
+			}
+			return nil, e.r.Pipelined(fn)
+		}
+		return c12Table[s.C].wrap(e, ctx, s)
+	}
+	nilRuns := 0
+	for _, s := range c.Steps {
+		ent := c12Table[s.C]
+		if ent == nil && s.C != "pipeline" {
+			return v.Failf("unknown command %q", s.C)
+		}
+		start := time.Now()
+
+		// (a) cancelled contexts
+		e := &c12Env{tw: tw, r: New(tw.mA.Addr()), classes: map[string]bool{}, types: map[string]bool{}}
+		sc := s
+		sc.X, sc.D = true, 1
+		for i := 0; i < c.N; i++ {
+			ctx, cancel := c12Ctx(sc)
+			got, gerr := call(e, ctx, sc)
+			cancel()
+			if gerr == breaker.ErrServiceUnavailable {
+				return v.Failf("%s: call %d with a cancelled context was rejected with ErrServiceUnavailable after %d cancelled calls", c12Show(sc), i, i)
+			}
+			var werr error
+			switch {
+			case s.C == "pipeline" || ent.judge != nil:
+				werr = context.Canceled
+			default:
+				_, werr = ent.ref(tw.rawB, ctx, sc)
+			}
+			if c12ErrStr(gerr) != c12ErrStr(werr) {
+				return v.Failf("%s: call %d with a cancelled context returned (%s, %q), go-redis %q", c12Show(sc), i, c12Canon(got, false), c12ErrStr(gerr), c12ErrStr(werr))
+			}
+		}
+		if msg := healthy(e.r, c12Show(sc)+" after the cancelled run"); msg != "" {
+			return v.Failf("%s", msg)
+		}
+		cls["cancel-run:"+s.C] = true
+
+		// (b) redis.Nil on an absent key. Blocking pops would sleep for their timeout.
+		blocking := len(s.C) >= 5 && s.C[:5] == "BLPop"
+		if !blocking {
+			tw.mA.FlushAll()
+			e = &c12Env{tw: tw, r: New(tw.mA.Addr()), classes: map[string]bool{}, types: map[string]bool{}}
+			sn := s
+			sn.D = 0
+			ctx, cancel := c12Ctx(sn)
+			_, gerr := call(e, ctx, sn)
+			if gerr == red.Nil {
+				for i := 1; i <= c.N; i++ {
+					_, gerr = call(e, ctx, sn)
+					if gerr == breaker.ErrServiceUnavailable {
+						cancel()
+						return v.Failf("%s: miss %d in a row was rejected with ErrServiceUnavailable (redis.Nil must not count as a failure)", c12Show(sn), i)
+					}
+					if gerr != red.Nil {
+						cancel()
+						return v.Failf("%s: miss %d in a row returned %q, want redis.Nil", c12Show(sn), i, c12ErrStr(gerr))
+					}
+				}
+				if msg := healthy(e.r, c12Show(sn)+" after the redis.Nil run"); msg != "" {
+					cancel()
+					return v.Failf("%s", msg)
+				}
+				cls["nil-run:"+s.C] = true
+				nilRuns++
+			}
+			cancel()
+			tw.mA.FlushAll()
+		}
+		if time.Since(start) > c12Stall {
+			cls["env:stalled-step"] = true
+			v.Excluded = true
+			v.Fail = ""
+			c12Renew(t)
+			return v
+		}
+	}
+	v.NonTrivial = nilRuns >= 10
+	return v
+}
+
+func TestVerif_C12_breaker_per_command(t *testing.T) {
+	c12Setup(t)
+	kit.Run(t, "C12", "breaker-per-command", kit.Opts{Quick: 8, Thorough: 128}, c12PerCmdGen,
+		func(c c12PerCmdCase) kit.Verdict { return c12PerCmdInterp(t, c) })
+}
